@@ -309,17 +309,28 @@ def _check_all(W, viol_sink, opkind):
             if fhex(r) != hx:
                 viol_sink("read.changed", opkind, d, f"q{i} in {u} reads {r!r}, was {float.fromhex(hx)!r}")
                 break
-        if hash(q) != W.h0[i]:
+        try:
+            hq = hash(q)
+        except Exception as e:  # noqa
+            viol_sink("hash.raises", opkind, d, f"hash(q{i}) raises {type(e).__name__}")
+            continue
+        if hq != W.h0[i]:
             viol_sink("hash.changed_with_display_unit", opkind, d,
                       f"hash(q{i}) differs from its value at construction (display unit now {q.units!r})")
-            W.h0[i] = hash(q)                          # report once per change
+            W.h0[i] = hq                               # report once per change
     # equal quantities hash equally (within a dimension)
     for i in range(len(W.q)):
         for j in range(i + 1, len(W.q)):
             if W.dim[i] == W.dim[j] and W.raw[i] == W.raw[j]:
-                if not (W.q[i] == W.q[j]):
+                try:
+                    eq = (W.q[i] == W.q[j])
+                    hi, hj = hash(W.q[i]), hash(W.q[j])
+                except Exception as e:  # noqa: comparing/hashing two quantities of one dimension must not raise
+                    viol_sink("compare.raises", opkind, W.dim[i], f"q{i} == q{j} / hash raises {type(e).__name__}: {e}")
+                    continue
+                if not eq:
                     viol_sink("compare.not_by_magnitude", opkind, W.dim[i], f"q{i} == q{j} is False for equal magnitudes")
-                elif hash(W.q[i]) != hash(W.q[j]):
+                elif hi != hj:
                     viol_sink("hash.equal_quantities_differ", opkind, W.dim[i],
                               f"q{i} == q{j} but hashes differ (units {W.q[i].units!r}, {W.q[j].units!r})")
     # container membership survives display changes
